@@ -119,7 +119,8 @@ def normal_form(func, subs=(), keep_name=False, keep_param_names=False, post_sub
 
 class Pair:
     def __init__(self, name, a, b, subs=(), mode="equal", expected=(), props=(), why="", c=None, header=True,
-                 keep_params=False, post_subs=(), post_fn=None, deep_subs=()):
+                 keep_params=False, post_subs=(), post_fn=None, deep_subs=(), deep_as=(None, None)):
+        self.deep_as = deep_as                  # when the helpers are written out: the concrete classes the two siblings run as
         self.deep_subs = list(deep_subs)        # role-map entries needed only when the helpers are written out
         self.post_fn = post_fn
         self.keep_params = keep_params
@@ -150,7 +151,7 @@ def _compare_pair(ctx, pair, clause, deep):
     na = nb = None
     if deep:
         from ..unextract import fully_inlined
-        na, nb = fully_inlined(p, fa), fully_inlined(p, fb)
+        na, nb = fully_inlined(p, fa, as_class=pair.deep_as[0]), fully_inlined(p, fb, as_class=pair.deep_as[1])
     subs = list(pair.subs) + (pair.deep_subs if deep else [])
     ha, sa = normal_form(fa, subs, keep_param_names=pair.keep_params, post_subs=pair.post_subs, post_fn=pair.post_fn, node=na)
     hb, sb = normal_form(fb, subs, keep_param_names=pair.keep_params, post_subs=pair.post_subs, post_fn=pair.post_fn, node=nb)
@@ -255,7 +256,7 @@ PAIRS = [
          subs=DIR, props=("C14", "C03", "C09")),
     Pair("annotate-target-subject-object", AFD + "_annotate_target_subject", IRF + "_annotate_target_object",
          subs=DIR + SO,
-         expected=[(r"if v\d in \[IRI_ELEM_TYPE, BNODE_ELEM_TYPE\]:", r"if v\d == IRI_ELEM_TYPE:",
+         expected=[(r"if v\d in \(IRI_ELEM_TYPE, BNODE_ELEM_TYPE\):", r"if v\d == IRI_ELEM_TYPE:",
                     "blank-node subjects of incoming links are classified without shape references (by design, see C14's quantifier)")],
          props=("C14", "C01")),
     Pair("introduce-needed-subj-obj", AFD + "_introduce_needed_elements_in_shape_instances_dict_for_subj",
@@ -274,9 +275,9 @@ PAIRS = [
          subs=[(r"_annotate_2d_direct_instance_features_for_class", "_annotate_direct_instance_features_for_class")], props=("C14",),
          deep_subs=[(r"\[_C_MAP_POS_DIRECT\]", "")]),
     Pair("init-annotated-targets", AFD + "_init_annotated_direct_features", IRF + "init_annotated_targets",
-         subs=[(r"\(\{\}, \{\}\)", "{}")], props=("C14", "C01", "C02")),
+         subs=[(r"\(\{\}, \{\}\)", "{}")], props=("C14", "C01", "C02"), deep_as=("DirectFeaturesStrategy", "IncludeReverseFeaturesStrategy")),
     Pair("init-original-targets", DFS + "init_original_targets", IRF + "init_original_targets",
-         subs=[(r"\(\{\}, \{\}\)", "{}")], props=("C14", "C02")),
+         subs=[(r"\(\{\}, \{\}\)", "{}")], props=("C14", "C02"), deep_as=("DirectFeaturesStrategy", "IncludeReverseFeaturesStrategy")),
     Pair("sgraph-po-vs-sp", SG + "yield_p_o_triples_of_target_nodes", SG + "yield_s_p_triples_of_target_nodes",
          subs=[(r"yield_p_o_triples_of_an_s", "yield_triples_of_a_node"), (r"yield_s_p_triples_of_an_o", "yield_triples_of_a_node"),
                (r"\b(\w+)\[2\]", r"\1[END]"), (r"\b(\w+)\[0\]", r"\1[END]")], props=("C14", "C15", "C19"),
